@@ -53,6 +53,11 @@ func catalogue() []shp {
 		// a corridor 6 000 000 long and 0.002 wide (aspect ratio 3e9), in 1/1000 units
 		{"corridor", [][][][2]int64{{{{0, 2}, {6000000000, 2}, {6000000000, 4}, {0, 4}}}}, true, true},
 		{"closed-spelling", [][][][2]int64{{{{0, 0}, {6, 0}, {6, 6}, {0, 6}, {0, 0}}, {{2, 2}, {4, 2}, {4, 4}, {2, 4}, {2, 2}}}}, false, false},
+		// rings that share a vertex (valid: they touch in a point): two holes touching
+		// each other, a hole touching the shell, two members touching
+		{"holes-touching", [][][][2]int64{{box(0, 0, 6, 6), box(2, 2, 3, 3), box(3, 3, 4, 4)}}, false, false},
+		{"hole-touching-shell", [][][][2]int64{{{{0, 0}, {6, 0}, {6, 6}, {0, 6}}, {{0, 0}, {3, 1}, {1, 3}}}}, false, false},
+		{"members-touching", [][][][2]int64{{box(0, 0, 3, 3)}, {box(3, 3, 6, 6)}}, false, false},
 	}
 }
 
@@ -317,6 +322,12 @@ func runCase(c Case) (string, string) {
 			for i := 0; i+1 < len(c.Lines[a]); i++ {
 				for j := 0; j+1 < len(c.Lines[b]); j++ {
 					if exact.SegsMeet(c.Lines[a][i], c.Lines[a][i+1], c.Lines[b][j], c.Lines[b][j+1]) {
+						// members chained end to start (b == a+1, the last segment of a and the
+						// first of b sharing just that vertex) are a simple multi-line string too
+						la, lb := c.Lines[a], c.Lines[b]
+						if b == a+1 && i == len(la)-2 && j == 0 && la[len(la)-1] == lb[0] && !exact.OnSeg(la[i], la[i+1], lb[1]) && !exact.OnSeg(lb[0], lb[1], la[i]) {
+							continue
+						}
 						atomic.AddInt64(&nSkipped, 1)
 						return "", ""
 					}
@@ -529,7 +540,7 @@ func main() {
 		return
 	}
 	rep = report.New("C14", tier, "model_checking")
-	rep.Rule = "E1: 16 polygonal shapes (a corridor of aspect ratio 3e9, boxes, triangles, L, C, pentagon, holes in both windings and closed spelling, multi-polygons, island in hole) as Polygon / MultiPolygon / *Bounds x every simple open polyline of 2 and 3 vertices over the lattice (i+.37, j+.41), i,j in {-1,1,3,5,7} (thorough: -1..7), plus two-member multi-line strings; x-monotone zigzag lines of 63..200 vertices; lines 4e10 long through the small shapes and multi-line strings with a member 7e9 long far away (absolute tolerance 1e-3 there); every simple polyline of 4 and 5 vertices over the coarse lattice {-1,3,7}^2 (detours outside the bounding box; 5 vertices against 6 shapes, thorough all); the same pairs again with both operands rotated by 30 degrees and scaled by 1.7 (irrational coordinates, lengths scale by 1.7); a quarter of the pairs again scaled exactly by 2^-20 and 2^40 (every tolerance relative to the scale), another quarter scaled by 2^-10 and moved to (2^22, 3*2^21); pairs not in general position (exact test) or with a piece shorter than 1e-7 are skipped and counted. Oracle: reference inside length from exact crossing tests + even-odd classification of every piece; Length(result) equal (rel 1e-9); every result vertex within 1e-9 of the line and inside or on the polygon; empty iff the reference length is 0; the polygon argument is not modified; the same clip twice more with both operands cut from flat vertex buffers (same result, buffers not written, first result intact); clip sequences on one shared polygon value, also after the value has been moved in place (history). Non-trivial = lines partly inside."
+	rep.Rule = "E1: 19 polygonal shapes (rings and members touching in a vertex, a corridor of aspect ratio 3e9, boxes, triangles, L, C, pentagon, holes in both windings and closed spelling, multi-polygons, island in hole) as Polygon / MultiPolygon / *Bounds x every simple open polyline of 2 and 3 vertices over the lattice (i+.37, j+.41), i,j in {-1,1,3,5,7} (thorough: -1..7), plus two-member multi-line strings (apart, and chained end to start); x-monotone zigzag lines of 63..200 vertices; lines 4e10 long through the small shapes and multi-line strings with a member 7e9 long far away (absolute tolerance 1e-3 there); every simple polyline of 4 and 5 vertices over the coarse lattice {-1,3,7}^2 (detours outside the bounding box; 5 vertices against 6 shapes, thorough all); the same pairs again with both operands rotated by 30 degrees and scaled by 1.7 (irrational coordinates, lengths scale by 1.7); a quarter of the pairs again scaled exactly by 2^-20 and 2^40 (every tolerance relative to the scale), another quarter scaled by 2^-10 and moved to (2^22, 3*2^21); pairs not in general position (exact test) or with a piece shorter than 1e-7 are skipped and counted. Oracle: reference inside length from exact crossing tests + even-odd classification of every piece; Length(result) equal (rel 1e-9); every result vertex within 1e-9 of the line and inside or on the polygon; empty iff the reference length is 0; the polygon argument is not modified; the same clip twice more with both operands cut from flat vertex buffers (same result, buffers not written, first result intact); clip sequences on one shared polygon value, also after the value has been moved in place (history). Non-trivial = lines partly inside."
 	var lattice []exact.Pt
 	step := int64(2)
 	if tier == "thorough" {
@@ -607,6 +618,13 @@ func main() {
 						if sym, det := runCase(cp); sym != "" {
 							rep.Violation(fmt.Sprintf("LineString.Clip|%s|%s|scaled-2^%d|%s", ct, s.Name, pw, sym), map[string]interface{}{"case": cp, "observed": det})
 						}
+					}
+				}
+				// a three-vertex line as two chained members {p, q}, {q, r}
+				if len(lines[i]) == 3 && i%3 == 1 {
+					c3 := Case{Shape: si, Cast: ct, Lines: [][]exact.Pt{{lines[i][0], lines[i][1]}, {lines[i][1], lines[i][2]}}}
+					if sym, det := runCase(c3); sym != "" {
+						rep.Violation(fmt.Sprintf("MultiLineString.Clip|%s|%s|chained-members|%s", ct, s.Name, sym), map[string]interface{}{"case": c3, "observed": det})
 					}
 				}
 				// the same polygon value clipped twice in a row (argument reuse)
